@@ -101,16 +101,22 @@ def work(item):
         dec.candidate('table-pairs:d=%d' % d, 'PrepareEvolve table entries do not correspond one-to-one to level pairs', kind='avg', d=d)
 
     # ---- 1. averaging scale
-    pas = call('h_prep_avg', [I(d), Buf('h', hv), D(t), D(scale), Buf('buf', n=2 * npairs), IBuf('flags', [None] * npairs)])
-    if any(p_.status != 'ok' or p_.ret != 0 for p_ in pas) or not pas:
-        out['broken'].append('h_prep_avg d=%d: %r' % (d, [(p_.status, p_.ret, p_.info) for p_ in pas]))
-        pas = []
+    pas = []
+    for init in (0, 1):
+        pi_ = call('h_prep_avg', [I(d), Buf('h', hv), D(t), D(scale), Buf('buf', n=2 * npairs), IBuf('flags', [None] * npairs), I(init)])
+        if any(p_.status != 'ok' or p_.ret != 0 for p_ in pi_) or not pi_:
+            out['broken'].append('h_prep_avg d=%d: %r' % (d, [(p_.status, p_.ret, p_.info) for p_ in pi_]))
+            pas = []
+            break
+        for p_ in pi_:
+            p_.init = init
+        pas += pi_
     for ipa, pa in enumerate(pas):
         if True:
             A = pa.out('buf')
             F = pa.out('flags')
             if any(v is None for v in A) or any(v is None for v in F):
-                dec.candidate('avg:d=%d:unwritten' % d, 'PrepareEvolve(avg) leaves a table entry or flag unwritten', kind='avg', d=d)
+                dec.candidate('avg:d=%d:unwritten' % d, 'PrepareEvolve(avg) leaves a table entry or flag unwritten', kind='avg', d=d, init=pa.init)
             else:
                 out['witnesses']['reachability'] += 1
                 conv = S.Conv('real')
@@ -126,10 +132,10 @@ def work(item):
                 r, mdl, _ = solver.check(pa.pc, conv=conv, extra=[z3.Or(viol)], want_model=True,
                                          label='averaging PrepareEvolve d=%d: entry m zeroed and flagged iff |phase_m| > |scale|, else equal to the unaveraged table (%d pairs, one merged path)' % (d, npairs))
                 if r == 'unsat':
-                    dec.holds('PrepareEvolve(buf,t,scale,avr): zeroes+flags exactly the pairs with |omega t| > |scale|, others as unaveraged, d=%d' % d)
+                    dec.holds('PrepareEvolve(buf,t,scale,avr): zeroes+flags exactly the pairs with |omega t| > |scale|, others as unaveraged, d=%d, flag vector previously all %s' % (d, 'true' if pa.init else 'false'))
                 elif r == 'sat':
                     names = ['h%d' % k for k in diag_indices(d)] + ['t', 'scale']
-                    dec.candidate('avg:d=%d' % d, 'averaging PrepareEvolve does not zero/flag exactly the pairs whose phase exceeds the scale', kind='avg', d=d,
+                    dec.candidate('avg:d=%d' % d, 'averaging PrepareEvolve does not zero/flag exactly the pairs whose phase exceeds the scale (flag vector previously all %s)' % ('true' if pa.init else 'false'), kind='avg', d=d, init=pa.init,
                                   input={nm: frac_str(S.model_value(mdl, conv, nm)) for nm in names})
                 else:
                     out['undecided'].append('avg d=%d' % d)
@@ -327,7 +333,7 @@ def replay(chk, h, c):
         tt = (tr or {}).get('t', float(rng.uniform(-2, 2)))
         if kind == 'avg':
             sc = (tr or {}).get('scale', float(rng.uniform(0, 2)))
-            ret, o = h.native('h_prep_avg', [I(d), Buf('h', hv), D(tt), D(sc), Buf('buf', [np.nan] * (2 * npairs)), IBuf('flags', [7] * npairs)])
+            ret, o = h.native('h_prep_avg', [I(d), Buf('h', hv), D(tt), D(sc), Buf('buf', [np.nan] * (2 * npairs)), IBuf('flags', [7] * npairs), I(c.get('init', 0))])
             b = base(hv, tt)
             Ed = levels(hv)
             got = np.array(o['buf'])
@@ -360,6 +366,16 @@ def replay(chk, h, c):
                 worst = max(worst, 1.0)
                 continue
             got = np.array(o['buf'])
+            if not np.isfinite(got).all():
+                return True, float('inf')
+            # a hard step (ramp 0) with a pair sitting exactly on the cutoff: only the first diagonal generator is non-zero, so |omega_01| = 2|h| exactly
+            hx = np.zeros(n)
+            hx[diag_indices(d)[1]] = 0.375
+            for tx in ([1.0] if fn == 'h_lowpass' else [1.0, 0.5]):
+                argx = [I(d), Buf('h', hx), Buf('buf', cin)] + ([D(tx)] if fn == 'h_avgramp' else []) + [D(0.75 * tx), D(0.0)]
+                retx, ox = h.native(fn, argx)
+                if retx != 0 or not np.isfinite(np.array(ox['buf'])).all():
+                    return True, float('inf')
             # per-entry multiplier from the data; compare the multiset of multipliers with the documented function of |omega| (or |omega t|)
             Ed = levels(hv)
             xs = sorted(abs((Ed[j] - Ed[k]) * (tt if fn == 'h_avgramp' else 1.0)) for j in range(d) for k in range(j + 1, d))
@@ -399,7 +415,7 @@ def main(tier):
         for k in diag_indices(d):
             hv[k] = float(rng.uniform(-1, 1))
         tb = list(rng.uniform(-1, 1, 2 * npairs))
-        cases.append(('h_prep_avg', [I(d), Buf('h', hv), D(1.3), D(0.8), Buf('buf', n=2 * npairs), IBuf('flags', [0] * npairs)], ['buf', 'flags']))
+        cases.append(('h_prep_avg', [I(d), Buf('h', hv), D(1.3), D(0.8), Buf('buf', n=2 * npairs), IBuf('flags', [0] * npairs), I(d % 2)], ['buf', 'flags']))
         cases.append(('h_prep_range', [I(d), Buf('h', hv), D(0.2), D(1.7), Buf('buf', n=2 * npairs)], ['buf']))
         cases.append(('h_lowpass', [I(d), Buf('h', hv), Buf('buf', tb), D(1.1), D(0.6)], ['buf']))
         cases.append(('h_avgramp', [I(d), Buf('h', hv), Buf('buf', tb), D(0.9), D(1.1), D(0.6)], ['buf']))
